@@ -137,7 +137,7 @@ def walker_rule(ctx: Ctx, rid: str, only: tuple = ()) -> None:
                 env[_reach_table_name(f)] = table
             elif wname == "usable_grammar":
                 if ty is ABSTRACT:
-                    env["self.alternatives"] = {repr(ABSTRACT): [A, B]}
+                    env["self.alternatives"] = {ABSTRACT: [A, B]}
             else:
                 env[params[0]] = ty
             n += 1
@@ -155,14 +155,14 @@ def walker_rule(ctx: Ctx, rid: str, only: tuple = ()) -> None:
             if wname == "reachability":
                 # tests on names of the enclosing function that the model leaves open (e.g. 'prod in all_sym') are explored both
                 # ways: a symbol counts as reached when some resolution of them reaches it
-                byrepr = {repr(t): t for t in _all_types(ty)}
+                byrepr = {t: t for t in _all_types(ty)}
                 merged = set()
                 for i_, (trace, rv, notes) in enumerate(runs):
                     if any(e.kind == "raise" for e in trace):
                         continue
                     tb = it.envs[i_].get(_reach_table_name(f), {})
                     for k_, v_ in tb.items():
-                        if repr(PROD) in v_ or "P" in v_:
+                        if PROD in v_ or repr(PROD) in v_ or "P" in v_:
                             if k_ not in byrepr:
                                 merged = None      # a destination the model does not know: the iteration was not followed
                                 break
@@ -521,6 +521,11 @@ def rule_r5(ctx: Ctx) -> None:
 
 
 def run(ctx: Ctx) -> None:
+    from .grammodel import ASPECTS, analysis_rule
+    ctx.rule("C05.R6", "end to end on model grammars (Grammar.__init__, register_type, preprocess interpreted): productions, minimum "
+                       "depths and the recursive set equal the reference computed from the specification, both depth modes")
+    n6 = analysis_rule(ctx, "C05.R6", ("productions", "distance", "recursive", "usable"))
+    ctx.floor("C05.R6", n6, 48, "model grammar x mode x aspect")
     ctx.rule("C05.R5", "weight normalisation completes on every grammar extract_grammar accepts (supplied classes need not be reachable)")
     rule_r5(ctx)
     ctx.rule("C05.R4", "a grammar that redoes its analysis in place keeps its start symbol, supplied classes and depth-counting mode")
